@@ -295,14 +295,18 @@ PAGES = ["{{#invoke:m|f}} {{#invoke:m|g}} {{a}}", "{{#invoque:m|f}} {{a|x}} {{#i
 for pfn, inv, pre in itertools.product([True, False], repeat=3):
     if inv and pfn:
         continue    # would start the Lua sandbox, whose libraries are absent offline
-    for page in PAGES:
+    sels = [{}] if not pre else [{}, {"templates_to_not_expand": {"zz"}}, {"templates_to_expand": {"a"}},
+                                 {"templates_to_expand": {"a", "inv"}, "templates_to_not_expand": {"pf"}},
+                                 {"templates_to_expand": set(), "templates_to_not_expand": set()}]
+    for page, sel in itertools.product(PAGES, sels):
         c5.start_page("Tt")
-        for rep in range(3):
+        for rep in range(3 if not sel else 1):
             expand_checked(c5, page, "core:Wtp.expand",
-                           {"page": page, "options": dict(expand_parserfns=pfn, expand_invoke=inv, pre_expand=pre),
+                           {"page": page, "options": dict(expand_parserfns=pfn, expand_invoke=inv, pre_expand=pre,
+                                                          **{k: sorted(v) for k, v in sel.items()}),
                             "repetition": rep}, start=False,
-                           expand_parserfns=pfn, expand_invoke=inv, pre_expand=pre)
-        distinct.add(("opts", page, pfn, inv, pre))
+                           expand_parserfns=pfn, expand_invoke=inv, pre_expand=pre, **sel)
+        distinct.add(("opts", page, pfn, inv, pre, str(sorted(sel))))
 
 # ---- (4) detect_expand_template_loop vs spec on all short stacks
 def spec_loop(stack):
